@@ -19,7 +19,7 @@ import ast
 import calendar
 
 from .. import sym
-from ..model import AnalysisError, Program, attr_chain, norm_stmt
+from ..model import AnalysisError, inline_single_defs, Program, attr_chain, norm_stmt
 from ..paths import Const, Engine, Hooks, Opaque, Seq, State, vkey
 from ..report import Result
 from ..selftest import Variant
@@ -296,7 +296,7 @@ def check(prog: Program, tier: str) -> Result:
     s4 = State()
     ok = False
     if len(calls) == 1 and len(calls[0].args) == 1:
-        v = e4.eval(calls[0].args[0], s4)
+        v = e4.eval(inline_single_defs(fi.node, calls[0].args[0]), s4)
         ok = isinstance(v, Rat) and v.equals(Rat.atom("design.ghe.B_spacing") / Rat.atom("design.ghe.bhe.b.H"))
     res.ob("R19.4", "g-function table comes from grab_g_function(B_spacing / H) - as in GHE.simulate", ok, prog.loc(fi, calls[0]) if calls else prog.loc(fi, fi.node))
     if not ok:
